@@ -3,7 +3,7 @@ CONSTANTS
   Names = {"n1", "n2", "n3"}
   SizeSel = "kilo"
   Limit = 1024
-  Single = FALSE
+  FName = "x_dir_dir.vpk"
   ArchIdx <- IdxAll
   NArch = 2
   Cs <- CsAll
